@@ -46,7 +46,7 @@ EditPool == IF EditTrees = "all" THEN OpTrees \cup LogicTrees \cup CtorTrees \cu
 Init4 == \/ mode = "seq" /\ stage = 0 /\ toks = <<>> /\ fam = "none" /\ c = X(1)
          \/ /\ mode = "json" /\ stage = 0 /\ fam = "none" /\ c = X(1)
             /\ \E item \in 0..8, f \in JFields, m \in JMuts : toks = <<ToString(item), f, m>>
-         \/ mode = "edit" /\ stage = 1 /\ fam = "none" /\ c \in EditPool /\ toks = Render(c, FALSE).t
+         \/ mode = "edit" /\ stage = 1 /\ fam = "none" /\ c \in EditPool /\ toks = Render(c, 0).t
 Next4 ==
   \/ /\ mode = "seq" /\ Len(toks) < MaxSeq /\ \E s \in Sigma : toks' = Append(toks, s)
      /\ UNCHANGED <<mode, stage, fam, c>>
